@@ -53,10 +53,69 @@ SP_TEXT_INPUTS = [
     "USAGE = \"\"\"Usage:\n    \n  run --fast\n\"\"\"\nsep: str = '''\n\t\n'''\nclass C:\n    a: int = 1\n    HELP: str = '''a:\n      \n\tthe a\n    '''\n"
     "def f(a: Optional[str], b: int = 3):\n    return a\n",
 ]
+# how often the output module of a plain (not eval) call carries an odd docstring (see odd_docstring below)
+P_ODD_DOCSTRING = 0.07
 SP_TEXT_OUTPUTS = [
     "BANNER = \"\"\"Usage:\n    \n  run --fast\n\"\"\"\ndef g(c: int, d: str = 'dd'):\n    \"\"\"g doc\"\"\"\n    print('''\n \t\n    indented\n\t''')\n    return c, BANNER\n"
     "class D:\n    x: int = 0\n    TABLE = '''a\tb\n\t\n1\t2'''\n    def m(self, x, y=2): pass\n",
 ]
+
+
+# docstrings as people write them: blanks that end a line, a line of blanks only, a continuation line indented further
+# than the block, closing quotes on a line of their own - text a formatter re-indents / strips (stratum odd-docstring:
+# the docstring of a definition that is NOT addressed, in the output file)
+DOC_WORDS = ["g doc", "Doc", "Set things up.", "Return c", "more", "indented", "the value", "Notes", "x: the x"]
+
+
+def odd_docstring(rng, indent="    "):
+    """(docstring value, shape): printable ASCII, no quote marks, no backslash"""
+    shape = rng.choice(["trailing-blanks", "blank-only-line", "over-indented", "leading-blank"])
+    a, b = rng.choice(DOC_WORDS), rng.choice(DOC_WORDS)
+    close = rng.choice(["", "", "\n" + indent])
+    if shape == "trailing-blanks":
+        doc = a + " " * rng.randint(1, 3) + "\n" + indent + b + close
+    elif shape == "blank-only-line":
+        doc = a + "\n" + " " * rng.randint(1, 6) + "\n" + indent + b + close
+    elif shape == "over-indented":
+        doc = a + "\n" + indent + " " * rng.randint(1, 4) + b + close
+    else:
+        doc = " " * rng.randint(1, 2) + a + ("" if rng.random() < 0.5 else "\n" + indent + b + close)
+    return doc, shape
+
+
+def with_odd_docstring(rng, src):
+    """src with the docstring of one of its functions / classes (or of the module) set to odd_docstring; the rest of the
+    module keeps its tree (the text goes through ast.unparse).  -> (text, shape) or (src, None) when nothing fits"""
+    try:
+        tree = ast.parse(src)
+    except SyntaxError:
+        return src, None
+    hosts = [(n, d) for n, d in _defs_with_depth(tree, 0)]
+    if rng.random() < 0.15 or not hosts:
+        hosts = [(tree, -1)]
+    host, depth = rng.choice(hosts)
+    doc, shape = odd_docstring(rng, "    " * (depth + 1))
+    stmt = ast.Expr(value=ast.Constant(value=doc))
+    if host.body and isinstance(host.body[0], ast.Expr) and isinstance(host.body[0].value, ast.Constant) \
+            and isinstance(host.body[0].value.value, str):
+        host.body[0] = stmt
+    else:
+        host.body.insert(0, stmt)
+    try:
+        text = ast.unparse(ast.fix_missing_locations(tree)) + "\n"
+        back = ast.parse(text)
+    except Exception:  # noqa
+        return src, None
+    if ast.dump(back) != ast.dump(tree):
+        return src, None
+    return text, shape
+
+
+def _defs_with_depth(node, depth):
+    for n in getattr(node, "body", []):
+        if isinstance(n, (ast.FunctionDef, ast.ClassDef)):
+            yield n, depth
+            yield from _defs_with_depth(n, depth + 1)
 
 
 # ------------------------------------------------------------------ externals supplied to the model
@@ -276,17 +335,24 @@ def gen(rng, n, tier="quick"):
         elif r < 0.36:
             # one file, two locations of it (input file == output file)
             src = module(SP_INPUTS + SP_OUTPUTS)
+            odd = None
+            if rng.random() < P_ODD_DOCSTRING:
+                src, odd = with_odd_docstring(rng, src)
             tree = ast.parse(src)
             k = rng.choice([1, 1, 1, 2])
             ips, ops = choose_pairs(tree, tree, k)
             shape = pair_shape(ips, ops, tree, tree) if k >= 2 and rng.random() < 0.3 else None
             wrap = rng.choice(WRAPS[:3]) if rng.random() < 0.6 else None
             add("sync_properties", [False, src, ips, src, ops, wrap, True], "noeval", "pairs-%d" % k,
-                "wrap" if wrap else "nowrap", "same-file", *([shape] if shape else []))
+                "wrap" if wrap else "nowrap", "same-file", *([shape] if shape else []),
+                *(["odd-docstring:" + odd] if odd else []))
         else:
             isrc, osrc = module(SP_INPUTS), module(SP_OUTPUTS)
+            odd = None
+            if rng.random() < P_ODD_DOCSTRING:
+                osrc, odd = with_odd_docstring(rng, osrc)
             itree, otree = ast.parse(isrc), ast.parse(osrc)
-            k = rng.choice([1, 1, 2, 2, 3])
+            k = rng.choice([1, 1, 1, 2]) if odd else rng.choice([1, 1, 2, 2, 3])
             ips, ops = choose_pairs(itree, otree, k)
             shape = None
             if k >= 2 and rng.random() < 0.15:
@@ -301,7 +367,7 @@ def gen(rng, n, tier="quick"):
             if rng.random() < 0.45:
                 wrap = rng.choice(WRAPS[:3]) if rng.random() < 0.8 else rng.choice(WRAPS)
             add("sync_properties", [False, isrc, ips, osrc, ops, wrap], "noeval", "pairs-%d" % k,
-                "wrap" if wrap else "nowrap", *([shape] if shape else []))
+                "wrap" if wrap else "nowrap", *([shape] if shape else []), *(["odd-docstring:" + odd] if odd else []))
     return cases[:n]
 
 
